@@ -1336,6 +1336,10 @@ func (c *Ctx) c13OnlyTheLoneLineBreakIsSkipped() {
 				if _, isPred := isPredicateCall(in); isPred {
 					return false
 				}
+				// a getter of the logger itself (no argument besides the receiver) hands nothing on
+				if g := staticCallee(&cl.Call); g != nil && inModule(g) && g.Signature.Recv() != nil && g.Signature.Params().Len() == 0 && g.Signature.Results().Len() > 0 {
+					return false
+				}
 				return true
 			}
 			var skips []*ssa.Return
@@ -1406,7 +1410,7 @@ func (c *Ctx) c13OnlyTheLoneLineBreakIsSkipped() {
 			}
 			c.FuncsSeen[fname(f)] = true
 			c.check(bad == "", "L16", fname(f)+"/only-the-lone-line-break", c.pos(f.Pos()), "the return that hands nothing on lies where the message has exactly one operand",
-				"the return at "+bad+" hands nothing on and is not confined to messages of exactly one operand: a message of several operands whose first is a line break — Log(\"\\n\", \"text\") — is dropped, on both streams, silently, and in a composite only by this member")
+				"the return at "+bad+" hands nothing on and is not confined to messages of exactly one operand (the lone line break, the only message a logger may skip): every message that takes this path is dropped silently, and in a composite only by this member — a message of several operands whose first is a line break, Log(\"\\n\", \"text\"), if the test looks at how the message begins; every output message, if the test is a remembered answer (\"the sink does not take information messages\") that is no longer true once the verbosity of the underlying library was raised")
 		}
 	}
 	if n == 0 {
